@@ -77,7 +77,7 @@ def rows : List Row := [
     setKeys := [("lib", true), ("tempLib", true), ("color", true), ("glyphs", false)], setDyn := "" },
   { kind := "glyph", getProvider := "Glyph", setProvider := "Glyph",
     getKeys := glyphGetters, getAlt := glyphGetAlt, getDyn := "",
-    setKeys := [("name", true), ("unicodes", true), ("width", true), ("height", true), ("note", true), ("lib", true), ("tempLib", true), ("_shallowLoadedContours", true), ("_contours", false), ("components", false), ("guidelines", false), ("anchors", false), ("image", false)], setDyn := "" },
+    setKeys := [("name", true), ("unicodes", true), ("width", true), ("height", true), ("note", true), ("lib", true), ("tempLib", true), ("_shallowLoadedContours", false), ("_contours", false), ("components", false), ("guidelines", false), ("anchors", false), ("image", false)], setDyn := "" },
   { kind := "contour", getProvider := "Contour", setProvider := "Contour",
     getKeys := contourGetters, getAlt := contourGetAlt, getDyn := "",
     setKeys := [("pen", false)], setDyn := "" },
